@@ -28,6 +28,7 @@ SUBMISSIONS = {
     "openf": "print(open('data.txt').read())\n",
     "imports": "import os\nimport math\nprint(math.sqrt(4))\n",
     "mathuse": "import math\nprint(math.extra)\n",
+    "mathpi": "import math\nx = math.pi + 1\nprint(x)\n",
     "loop": "total = 0\nfor i in [1, 2, 3]:\n    total = total + i\nprint(total)\n",
     "sleep": "import time\ntime.sleep(0)\nprint('done')\n",
     "plot": "import matplotlib.pyplot as plt\nplt.plot([1, 2, 3])\nplt.title('T')\nplt.show()\n",
@@ -53,6 +54,7 @@ FRAGMENTS = [
     ("set_correct", "set_correct()\n"),
     ("guidance", "guidance('try again')\n"),
     ("custom_cls", "class my_fb(Feedback):\n    title = 'Mine'\n    message_template = 'Custom {x}'\n    category = 'instructor'\n    justification = 'because'\nmy_fb(x=5)\n"),
+    ("untriggered_scored", "gently('never shown', activate=False, score='+25%', label='never_shown')\n"),
     ("custom_untriggered", "class quiet_fb(Feedback):\n    title = 'Quiet'\n    message_template = 'Quiet {x:name}'\n    category = 'instructor'\nquiet_fb(x='v', activate=False)\n"),
     # assertions / sandbox
     ("ensure_f", "ensure_function('f')\n"),
@@ -82,7 +84,7 @@ FRAGMENTS = [
     ("cait", "matches = find_matches('_x_ = 0')\nif matches:\n    explain('found zero init', label='zero_init')\n"),
     ("cait_count", "print(len(find_matches('_x_ + _y_')))\n"),
     ("tifa_again", "from pedal.tifa import tifa_analysis\nprint(sorted(tifa_analysis().issues))\n"),
-    ("tifa_other", "from pedal.tifa import tifa_analysis\ntifa_analysis('import math\\nmath.extra = 2\\nprint(math.extra)\\n')\n"),
+    ("tifa_other", "from pedal.tifa import tifa_analysis\ntifa_analysis('import math\\nmath.extra = 2\\nmath.pi = \\'three\\'\\nprint(math.extra)\\n')\n"),
     ("verify_again", "verify()\n"),
     ("set_source", "set_source('print(3)')\nrun()\nprint(repr(student.output))\n"),
     ("trace", "start_trace()\nrun()\n"),
@@ -192,7 +194,8 @@ def G(frags, sub, **kw):
     return dict({"frags": list(frags), "sub": sub, "script": script, "code": _code(sub), "env": "standard"}, **kw)
 
 
-SUBMISSIONS_CORPUS_ONLY = {"mathmod": "import math\nmath.extra = 1\nprint(math.extra + math.floor(2.5))\n"}
+SUBMISSIONS_CORPUS_ONLY = {"mathmod": "import math\nmath.extra = 1\nprint(math.extra + math.floor(2.5))\n",
+                           "mathretype": "import math\nmath.pi = 'three'\nprint(math.pi)\n"}
 
 
 def _code(sub):
@@ -224,6 +227,9 @@ CORPUS = [
     # a program that adds an attribute to a builtin module, ANALYSED only (running it would change the real module)
     ("tifa-module-attribute", [G(["nothing"], "mathmod", skip_run=True), G(["tifa_again"], "mathuse"),
                                G(["tifa_again"], "mathuse", skip_tifa=True)]),
+    ("tifa-module-retyped", [G(["nothing"], "mathretype", skip_run=True), G(["nothing"], "mathpi"),
+                             G(["tifa_again"], "mathpi", skip_tifa=True)]),
+    ("untriggered-scored-then-plain", [G(["untriggered_scored", "gently"], "ok"), G(["gently"], "ok")]),
     ("tifa-module-attribute-script", [G(["tifa_other"], "ok"), G(["tifa_again"], "mathuse", skip_tifa=True)]),
     ("same-pair-twice", [G(["assert_call", "compliment"], "ok"), G(["assert_call", "compliment"], "ok")]),
     ("other-environment-first", [G(["gently"], "nameerr", env="terminal"), G(["gently"], "nameerr"),
